@@ -453,12 +453,26 @@ def _documented_defaults(env, cfg):
               type(imp) is MarginalImputer and type(imp.sampling_strategy) is str and imp.sampling_strategy == 'joint'
               and imp.storage_object is st, detail=f"{type(imp).__name__}, strategy {getattr(imp, 'sampling_strategy', None)!r}")
     env.claim('default_inner_samples_is_one', type(ex.n_inner_samples) is int and ex.n_inner_samples == 1)
+    # a second explainer built the same way in the same process owns its own collaborators (no shared default objects):
+    # what the first one has observed is not part of the second one's background
+    st.update({n: 1.0 for n in names}, 0.5)
+    if incremental:
+        ex2 = guarded(env, 'ctor_second_object', cls, UFModel(env, names), UFLoss(env), names, **kw)
+    else:
+        ex2 = guarded(env, 'ctor_second_object', cls, UFModel(env, names), names, UFLoss(env))
+    env.claim('second_explainer_has_its_own_default_storage', ex2._storage is not st and ex2._imputer is not imp
+              and ex2._imputer.storage_object is ex2._storage)
+    env.claim('second_explainer_starts_with_an_empty_background', len(ex2._storage.get_data()[0]) == 0,
+              detail=f"{len(ex2._storage.get_data()[0])} rows observed by another explainer")
+    mine = {id(v) for v in vars(ex).values() if hasattr(v, '__dict__') and not callable(v)}
+    shared = [a for a, v in vars(ex2).items() if hasattr(v, '__dict__') and not callable(v) and id(v) in mine]
+    env.claim('second_explainer_shares_no_stateful_attribute', not shared, detail=f"shared: {shared}")
     if incremental:
         env.claim('default_smoothing_alpha', ex._smoothing_alpha == 0.001)
         env.claim('default_loss_direction', getattr(ex, 'loss_bigger_is_better', False) is False
                   if hasattr(ex, 'loss_bigger_is_better') else True)
 
 
-META['explanation'] += ' documented_defaults: the default storage / imputer / sample count of every explainer equal the objects named in the docstrings, attribute by attribute.'
+META['explanation'] += ' documented_defaults: the default storage / imputer / sample count of every explainer equal the objects named in the docstrings, attribute by attribute; a second explainer built the same way in the same process shares no storage / imputer / tracker object with the first and starts with an empty background.'
 
 META['explanation'] += ' given_objects: configuration snapshot of every given storage / imputer / wrapper / name list unchanged by the constructor; the constructor does not evaluate the loss.'
